@@ -91,6 +91,35 @@ func Solve(o *Obligation, cfg *SolverCfg, idx int) {
 		o.Status, o.Solver = "discharged", "simplifier"
 		return
 	}
+	// stage 0: abstract every non-linear product / division by a fresh integer constant (the same
+	// term gets the same constant).  Validity of the abstraction implies validity of the
+	// original, so `unsat` here is a sound discharge; anything else falls through.
+	if o.Expect == "unsat" {
+		renderMu.Lock()
+		all := append(append([]*Term{}, o.Hyps...), Not(o.Goal))
+		abs, n := abstractNonlinear(all)
+		var text0 string
+		if n > 0 {
+			sc0 := &Script{Asserts: abs, RecDefs: o.Recs}
+			text0 = sc0.Render()
+		}
+		renderMu.Unlock()
+		if text0 != "" {
+			f0 := filepath.Join(cfg.WorkDir, fmt.Sprintf("o%05d.lin.smt2", idx))
+			os.WriteFile(f0, []byte(text0), 0o644)
+			r := runSolver(context.Background(), "z3-new", f0, 2000, cfg.Seed)
+			if !cfg.Keep {
+				os.Remove(f0)
+			}
+			if r.status == "unsat" {
+				o.Status, o.Solver, o.TimeMS, o.SMTSize = "discharged", "z3-new(nl-abstracted)", r.ms, len(text0)
+				if !cfg.AllAgree {
+					return
+				}
+				o.Status = ""
+			}
+		}
+	}
 	renderMu.Lock()
 	asserts := append([]*Term{}, o.Hyps...)
 	if o.Expect == "unsat" {
@@ -126,6 +155,12 @@ func Solve(o *Obligation, cfg *SolverCfg, idx int) {
 			return true
 		}
 		return false
+	}
+	if o.Kind == "cover" && cfg.TimeoutMS > 4000 {
+		c2 := *cfg
+		c2.TimeoutMS = 4000
+		c2.AllAgree = false
+		cfg = &c2
 	}
 	// stage 1: z3-new alone, short
 	short := cfg.TimeoutMS
@@ -180,8 +215,16 @@ func Solve(o *Obligation, cfg *SolverCfg, idx int) {
 		o.TimeMS = time.Since(t0).Milliseconds()
 		o.Status = "unknown"
 		var notes []string
+		allErr := true
 		for _, r := range results {
 			notes = append(notes, r.solver+":"+r.status)
+			if r.status != "error" {
+				allErr = false
+			}
+		}
+		if allErr {
+			o.Status = "tool-error"
+			o.Note = firstLines(results[0].out, 3)
 		}
 		o.Solver = strings.Join(notes, ",")
 	}
@@ -232,4 +275,61 @@ var renderMu sync.Mutex
 
 func SolveRendered(o *Obligation, cfg *SolverCfg, idx int) {
 	Solve(o, cfg, idx)
+}
+
+// abstractNonlinear replaces every non-linear arithmetic sub-term by a fresh constant.
+func abstractNonlinear(ts []*Term) ([]*Term, int) {
+	memo := map[*Term]*Term{}
+	n := 0
+	var rec func(t *Term) *Term
+	rec = func(t *Term) *Term {
+		if len(t.Args) == 0 {
+			return t
+		}
+		if r, ok := memo[t]; ok {
+			return r
+		}
+		var r *Term
+		nl := false
+		switch t.Op {
+		case "*":
+			k := 0
+			for _, a := range t.Args {
+				if a.Op != "int" {
+					k++
+				}
+			}
+			nl = k >= 2
+		case "div", "mod":
+			nl = t.Args[1].Op != "int"
+		case "forall", "exists":
+			memo[t] = t
+			return t
+		}
+		if nl {
+			n++
+			r = Sym(fmt.Sprintf("nl!%d", t.id), SInt)
+		} else {
+			args := make([]*Term, len(t.Args))
+			changed := false
+			for i, a := range t.Args {
+				args[i] = rec(a)
+				if args[i] != a {
+					changed = true
+				}
+			}
+			if changed {
+				r = rebuild(t, args)
+			} else {
+				r = t
+			}
+		}
+		memo[t] = r
+		return r
+	}
+	out := make([]*Term, len(ts))
+	for i, t := range ts {
+		out[i] = rec(t)
+	}
+	return out, n
 }
